@@ -54,6 +54,7 @@ type reqT struct {
 	Local  string            `json:"local"`
 	Filter string            `json:"filter"`
 	Ans    string            `json:"ans"`
+	Tr     string            `json:"tr"` // configuration variant: plain | tracing | cors | tracingcors
 	NT     bool              `json:"nt"`
 	O      map[string]string `json:"o"`
 	A      map[string]string `json:"a"`
@@ -114,8 +115,7 @@ func ascii(s string) string {
 type env struct {
 	names   *hx.Names
 	rec     *recorder
-	open    *rest.API
-	auth    *rest.API
+	apis    []*rest.API
 	addr    map[string]string
 	hc      *http.Client
 	origins map[string]ma.Multiaddr
@@ -127,12 +127,23 @@ type env struct {
 	tmp     string
 }
 
-func newAPI(creds map[string]string, e *env) (*rest.API, string, error) {
+func newAPI(creds map[string]string, variant string, e *env) (*rest.API, string, error) {
 	cfg := &rest.Config{}
 	cfg.Default()
 	a, _ := ma.NewMultiaddr("/ip4/127.0.0.1/tcp/0")
 	cfg.HTTPListenAddr = []ma.Multiaddr{a}
 	cfg.BasicAuthCredentials = creds
+	// configuration variants: the answers must not depend on them
+	if variant == "tracing" || variant == "tracingcors" {
+		cfg.Tracing = true // what the daemon sets with --tracing
+	}
+	if variant == "cors" || variant == "tracingcors" {
+		cfg.CORSAllowedOrigins = []string{"http://allowed.example"}
+		cfg.CORSAllowedMethods = []string{"GET"}
+		cfg.CORSAllowCredentials = false
+		cfg.CORSMaxAge = 10 * time.Minute
+		cfg.Headers = map[string][]string{"X-Verif": {"1", "2"}, "Server": {"c11"}}
+	}
 	r, err := rest.NewAPI(context.Background(), cfg)
 	if err != nil {
 		return nil, "", err
@@ -167,12 +178,19 @@ func newEnv() (*env, error) {
 		p.ReplicationFactorMin, p.ReplicationFactorMax = 1, 2
 	}
 	e.rec = newRecorder(e.names.Peer("p1"), e.names.Peer("p2"), seed)
-	var err error
-	if e.open, e.addr["open"], err = newAPI(nil, e); err != nil {
-		return nil, err
-	}
-	if e.auth, e.addr["auth"], err = newAPI(map[string]string{user1: pass1, user2: pass2}, e); err != nil {
-		return nil, err
+	for _, variant := range variants {
+		for _, k := range []string{"open", "auth"} {
+			var creds map[string]string
+			if k == "auth" {
+				creds = map[string]string{user1: pass1, user2: pass2}
+			}
+			r, addr, err := newAPI(creds, variant, e)
+			if err != nil {
+				return nil, err
+			}
+			e.apis = append(e.apis, r)
+			e.addr[k+"/"+variant] = addr
+		}
 	}
 	e.hc = &http.Client{Timeout: 60 * time.Second,
 		CheckRedirect: func(*http.Request, []*http.Request) error { return http.ErrUseLastResponse }}
@@ -198,7 +216,7 @@ func newEnv() (*env, error) {
 	}
 	// wait until both servers answer
 	deadline := time.Now().Add(30 * time.Second)
-	for _, k := range []string{"open", "auth"} {
+	for k := range e.addr {
 		for {
 			resp, err := e.hc.Get("http://" + e.addr[k] + "/version")
 			if err == nil {
@@ -215,12 +233,23 @@ func newEnv() (*env, error) {
 	return e, nil
 }
 
+var variants = []string{"plain", "tracing", "cors", "tracingcors"}
+
+func (e *env) apiAddr(r *reqT) string {
+	tr := r.Tr
+	if tr == "" {
+		tr = "plain"
+	}
+	return e.addr[r.Cfg+"/"+tr]
+}
+
 func (e *env) close() {
 	if e.tmp != "" {
 		os.RemoveAll(e.tmp)
 	}
-	e.open.Shutdown(context.Background())
-	e.auth.Shutdown(context.Background())
+	for _, a := range e.apis {
+		a.Shutdown(context.Background())
+	}
 }
 
 // ---------------------------------------------------------------- concretise
@@ -777,7 +806,7 @@ func countDocs(body []byte) (n int, last json.RawMessage, clean bool) {
 // ---------------------------------------------------------------- HTTP cases
 
 func (e *env) runHTTP(r *reqT, raw json.RawMessage) (*recT, error) {
-	base := "http://" + e.addr[r.Cfg]
+	base := "http://" + e.apiAddr(r)
 	u := base + e.urlPath(r)
 	if q := e.query(r); q != "" {
 		u += "?" + q
